@@ -19,8 +19,15 @@ What is modelled, line by line for the logic that matters:
   "close (unmap) — then format the CRC bytes of the mapping" (`fault`);
 * roaring (de)serialisation is a parameter `Roar` (opaque payload bytes per segment).
 
-`Cfg` selects between the code as pinned (`Cfg.pinned`) and the code with the proposed repairs
-(`Cfg.guarded`); `currentCfg` is the one the correspondence run ties to /repo. -/
+* `sDecode`: the same decoder as a plain function of the remaining bytes (no buffer, no reader state) — the
+  grammar of the file format as the repaired code reads it; `BlugeProofs.C12.readFrom_eq_sDecode` proves the
+  buffered model computes it on every input.
+
+`Cfg` selects between the code as pinned (`Cfg.pinned`) and the code with the repairs (`Cfg.guarded`: bounded
+full reads, `uint64` loop, CRC bytes copied before the unmap, and — fix 7033aea — every `Uvarint` result checked
+for `n <= 0` plus the byte count of `ReadFrom` compared with the body length in `loadSnapshot`); `currentCfg`
+is read off /repo's source by `go/extract/c12.go` on every run, together with the call scripts of the eleven
+codec/loader functions that `Bluge.Codec.Script` (lean/Bluge/C12/Script.lean) relates to the definitions below. -/
 namespace Bluge.Codec
 
 abbrev Byte := BitVec 8
